@@ -419,6 +419,26 @@ func gveq(a, b gval) (bool, bool) { // (equal, defined)
 	if a.K == "s" && b.K == "s" {
 		return a.S == b.S, true
 	}
+	if a.K == "m" && b.K == "m" {
+		// nested maps are compared key-wise (deep equality)
+		if len(a.M) != len(b.M) {
+			return false, true
+		}
+		for _, e := range a.M {
+			x := gmap(b.M).get(e.K)
+			if x == nil {
+				return false, true
+			}
+			eq, ok := gveq(e.V, *x)
+			if !ok {
+				return false, false
+			}
+			if !eq {
+				return false, true
+			}
+		}
+		return true, true
+	}
 	return false, false
 }
 
